@@ -187,6 +187,9 @@ class NativeContract:
         env = dict(args)
         env["__old__"] = old
         env["result"] = result
+        gfn = specmod.NATIVE_GHOSTS.get(self.c.target)
+        if gfn is not None and exc is None:
+            env.update(gfn(**dict(old, result=result)))
         self._set_universe({"a": old, "b": args, "r": result if not isinstance(result, types.GeneratorType) else None})
         old_env = dict(old)
         old_env["__old__"] = old
